@@ -86,8 +86,78 @@ class Ctx:
     def explain(self, s):
         self.explanations.append(s)
 
+    is_borrowed = False
+
+    def fresh(self):
+        """an empty context of the same property (used to run a rule on its positive control)"""
+        return Ctx(self.prop, self.tier, self.repo)
+
+    def borrowed(self, other_prop, prefix):
+        """a view of this context for running the rule module of another property as a clause of this one: its
+        obligations are recorded under `prefix` + original rule name, its floors / counters are kept apart, its
+        explanations are dropped.  Programs and the extraction cache are shared."""
+        return _Borrowed(self, other_prop, prefix)
+
     def assume(self, s):
         self.assumptions.append(s)
+
+
+class _Borrowed:
+    is_borrowed = True
+
+    def __init__(self, base, prop, prefix):
+        self._b = base
+        self.prop = prop
+        self.tier = base.tier
+        self.repo = base.repo
+        self._prefix = prefix
+        self.analysed = base.analysed
+        self.obligations = base.obligations
+        self.samples = []
+
+    def program(self, config="MAX"):
+        return self._b.program(config)
+
+    @property
+    def prog(self):
+        return self._b.prog
+
+    def configs(self):
+        return ["MAX"]          # the borrowed clause is checked on the main configuration only
+
+    @property
+    def controls(self):
+        return self._b.controls
+
+    def ob(self, rule, instance, ok, detail="", where=None):
+        return self._b.ob(self._prefix + rule, instance, ok, detail, where)
+
+    def count(self, key, n=1):
+        self._b.count("%s%s" % (self._prefix, key), n)
+
+    def floor(self, what, n, minimum):
+        self._b.floor("%s%s" % (self._prefix, what), n, minimum)
+
+    def need(self, cond, msg):
+        self._b.need(cond, msg)
+
+    def control(self, rule, fired):
+        self._b.control(self._prefix + rule, fired)
+
+    def sample(self, s):
+        pass
+
+    def explain(self, s):
+        pass
+
+    def assume(self, s):
+        self._b.assume(s)
+
+    def fresh(self):
+        return Ctx(self.prop, self.tier, self.repo)
+
+    def borrowed(self, other_prop, prefix):
+        return _Borrowed(self._b, other_prop, self._prefix + prefix)
 
 
 def load_known():
